@@ -35,25 +35,35 @@ func c04(c *core.Ctx, r *core.Report) {
 	runner, _, _ := iterationRunner(c)
 
 	workers := map[*ssa.Function]bool{}
+	workerState := map[*ssa.Function]*ssa.Parameter{}
 	rule(r, "C04.R1", "the iteration runner is called only synchronously inside worker functions, with the worker's own state parameter; workers are started only by `go` statements inside a loop over the pool's state slice, one per element; no other go statement reaches the runner", func() {
-		sites := an.CallSitesOf(c, runner)
-		if !r.Floor("call sites of the iteration runner", len(sites), 2) {
-			return
-		}
-		for _, s := range sites {
-			fn := s.Parent()
-			key := core.FuncName(fn) + "#run-call"
-			if _, ok := s.(*ssa.Call); !ok {
-				r.Violation(key, an.Pos(c, s), "the iteration runner is started with go/defer: more iterations than workers can be in flight")
+		runs, stray := workerRuns(c, runner)
+		for _, st := range stray {
+			if _, isGo := st.(*ssa.Go); isGo {
+				r.Violation(core.FuncName(st.Parent())+"#run-call", an.Pos(c, st), "the iteration runner is started with `go`: more iterations than workers can be in flight")
 				continue
 			}
-			p, isParam := s.Common().Args[1].(*ssa.Parameter)
-			if !isParam {
-				r.Violation(key, an.Pos(c, s), "the state handed to the runner is %s, not the state parameter the worker goroutine was started with: two workers can run with the same test handle", an.D().Of(s.Common().Args[1]))
+			if _, isDefer := st.(*ssa.Defer); isDefer {
+				r.Violation(core.FuncName(st.Parent())+"#run-call", an.Pos(c, st), "the iteration runner is deferred")
+				continue
+			}
+			r.Violation(core.FuncName(st.Parent())+"#run-call", an.Pos(c, st), "the iteration runner is called from %s, outside the pool worker goroutines", core.FuncName(st.Parent()))
+		}
+		if !r.Floor("runner calls in worker goroutines", len(runs), 2) {
+			return
+		}
+		for _, wr := range runs {
+			fn := wr.Worker
+			key := core.FuncName(fn) + "#run-call"
+			state := an.Strip(wr.Run.Translate(wr.Run.Call().Common().Args[1]))
+			p, isParam := state.(*ssa.Parameter)
+			if !isParam || p.Parent() != fn {
+				r.Violation(key, an.Pos(c, wr.Run.Instr), "the state handed to the runner is %s, not the state parameter the worker goroutine was started with: two workers can run with the same test handle", an.D().Of(state))
 				continue
 			}
 			workers[fn] = true
-			r.OK(key, an.Pos(c, s), "synchronous call with the worker's own parameter %s", p.Name())
+			workerState[fn] = p
+			r.OK(key, an.Pos(c, wr.Run.Instr), "synchronous call (through %d helper levels) with the worker's own parameter %s", depthOf(wr.Run), p.Name())
 		}
 		// go statements
 		nGo := 0
@@ -79,12 +89,7 @@ func c04(c *core.Ctx, r *core.Report) {
 					continue
 				}
 				// which argument is the state? the one bound to the parameter the worker passes to the runner
-				var stateParam *ssa.Parameter
-				for _, s := range an.CallSitesOf(c, runner) {
-					if s.Parent() == t {
-						stateParam, _ = s.Common().Args[1].(*ssa.Parameter)
-					}
-				}
+				stateParam := workerState[t]
 				idx := -1
 				for i, p := range t.Params {
 					if p == stateParam {
@@ -203,10 +208,11 @@ func c04(c *core.Ctx, r *core.Report) {
 						wwait = call
 					}
 				}
-				var firstRun ssa.CallInstruction
-				for _, s := range an.CallSitesOf(c, runner) {
-					if s.Parent() == w {
-						firstRun = s
+				var firstRun ssa.Instruction
+				runs, _ := workerRuns(c, runner)
+				for _, wr := range runs {
+					if wr.Worker == w {
+						firstRun = wr.Run.Root()
 					}
 				}
 				if done == nil || an.InLoop(done) || !an.Dominates(done, firstRun) {
@@ -288,11 +294,11 @@ func checkStateMaker(c *core.Ctx, r *core.Report, maker *ssa.Function) {
 					r.Violation(key+"#elements", an.Pos(c, st), "elements are assigned %s: not a state created inside the filling loop, so workers share a test handle", an.D().Of(st.Val))
 					continue
 				}
-				// loop bound is n
+				// loop bound is n (or the length of the slice made with length n)
 				okBound := false
 				for b := range loop {
 					if iff, ok := b.Instrs[len(b.Instrs)-1].(*ssa.If); ok {
-						if bo, ok := iff.Cond.(*ssa.BinOp); ok && bo.Op == token.LSS && an.Strip(bo.Y) == ssa.Value(n) {
+						if bo, ok := iff.Cond.(*ssa.BinOp); ok && bo.Op == token.LSS && (an.Strip(bo.Y) == ssa.Value(n) || lenBoundOf(bo.Y, ms)) {
 							okBound = true
 						}
 					}
@@ -468,4 +474,12 @@ func freshStateRule(c *core.Ctx, r *core.Report) {
 		}
 	}
 	r.Floor("pool creation sites", m, 2)
+}
+
+func depthOf(e an.Event) int {
+	n := 0
+	for f := e.Frame; f.Parent != nil; f = f.Parent {
+		n++
+	}
+	return n
 }
